@@ -597,7 +597,12 @@ impl Value {
                                     .unwrap_or(Value::Null)
                                     .into(),
                                 (Value::String(str), Value::Int(idx)) => {
-                                    match str.get(idx as usize..(idx + 1) as usize) {
+                                    // `idx + 1` must not overflow for i64::MAX; negative indexes
+                                    // wrap to huge offsets and fall out of range as before.
+                                    match (idx as usize)
+                                        .checked_add(1)
+                                        .and_then(|end| str.get(idx as usize..end))
+                                    {
                                         None => Ok(Value::Null),
                                         Some(str) => Ok(Value::String(str.to_string().into())),
                                     }
